@@ -4,6 +4,9 @@ From Coq Require Import ZArith Lia ZifyBool ZifyNat ZifyN.
 Ltac Zify.zify_post_hook ::= Z.div_mod_to_equations.
 Open Scope N_scope.
 
+Lemma frev_rev {A} (l : list A) : frev l = rev l.
+Proof. unfold frev. rewrite rev_append_rev. apply app_nil_r. Qed.
+
 Lemma len_app {A} (a b : list A) : len (a ++ b) = len a + len b.
 Proof. unfold len. rewrite app_length. lia. Qed.
 
